@@ -623,11 +623,16 @@ Record SI (pk gp : N) (st : cstate) : Prop := {
 
 Lemma cinit_SI : forall pk gp, SI pk gp (cinit pk).
 Proof.
-  intros. constructor; cbn.
-  - constructor; cbn; try tauto; try constructor; try discriminate.
-    + intros k. unfold mhas; cbn. split; [discriminate|tauto].
-    + intros k. split; [tauto|]. unfold mhas; cbn. intros [H _]; discriminate.
-  - tauto.
+  intros. constructor; cbn [cinit c_w c_u c_top c_committed c_blocks].
+  - constructor; cbn [init w_pk w_slips w_unspent map].
+    + reflexivity.
+    + constructor.
+    + intros k x H; discriminate.
+    + intros k. unfold mhas; cbn [mget]. split; [discriminate|intros [[] _]].
+    + intros k. cbn [In]. split; [tauto|]. unfold mhas; cbn [mget]. intros [H _]; discriminate.
+    + intros k [].
+    + intros k [].
+  - intros p [].
 Qed.
 
 Lemma find_block_spec : forall id bs p, find_block id bs = Some p -> In p bs /\ b_id p = id.
